@@ -68,7 +68,11 @@ def check(prog, run):
                 run.ok("keys-are-supplied-names", c)
     # name kinds: a supplied name is a key whatever it looks like (names starting with a double underscore are
     # reserved by the implementation -- type() adds __module__ etc. -- and are not part of the contract)
-    name_kinds = ["plain", "UPPER_CASE", "_leading_underscore", "_X", "trailing_", "trailing__", "inner__double", "a", "with9digits", "keys_", "add_"]
+    # (the enumeration's own API names -- keys, add, remove -- are attributes of the metaclass and cannot be member names; every
+    # other identifier can, including the words a mapping-like API might be tempted to claim later)
+    name_kinds = ["plain", "UPPER_CASE", "_leading_underscore", "_X", "trailing_", "trailing__", "inner__double", "a", "with9digits", "keys_", "add_",
+                  "values", "items", "get", "update", "pop", "copy", "clear", "mro", "name", "value", "type", "index", "count", "members", "names"]
+    run.unconstrained += ["member names 'keys', 'add', 'remove' (the Enum API itself)"]
     for nm in name_kinds:
         for form in ("dict", "kwargs"):
             def tn(nm=nm, form=form):
